@@ -46,13 +46,14 @@ vars == <<fam, pc, str, byt, addr, hist>>
 
 PipeS == <<"strict", "lenient", "veoa", "vscore", "vaddr", "print", "bytes", "frombytes">>
 PipeB == <<"frombytes", "print", "strict", "bytes">>
-PipeC == <<"new", "iscontract", "print", "strict", "bytes", "frombytes", "eq_same", "eq_type", "eq_id", "eq_nil", "codec">>
-PipeN == <<"eq_nilnil", "codec">>
+PipeC == <<"new", "iscontract", "copy", "print", "strict", "bytes", "frombytes", "eq_same", "eq_type", "eq_id", "eq_nil", "codec">>
+PipeN == <<"eq_nilnil", "copy", "codec">>
 Pipe == CASE fam = "B" -> PipeB [] fam \in {"CA", "CC"} -> PipeC [] fam = "N" -> PipeN [] OTHER -> PipeS
 ByteFams == {"B", "CA", "CC"}
 At(call) == pc >= 1 /\ pc <= Len(Pipe) /\ Pipe[pc] = call
 \* calls on the Address object need one
-NeedsAddr(call) == \/ call \in {"print", "bytes", "iscontract", "eq_same", "eq_type", "eq_id", "eq_nil"}
+NeedsAddr(call) == \/ (fam # "N" /\ call = "copy")
+                   \/ call \in {"print", "bytes", "iscontract", "eq_same", "eq_type", "eq_id", "eq_nil"}
                    \/ (fam \in {"S", "CA", "CC"} /\ call = "frombytes") \/ (fam \in ByteFams /\ call = "strict")
                    \/ (fam \in {"CA", "CC"} /\ call = "codec")
 
@@ -180,6 +181,12 @@ IsContractCall ==
   /\ At("iscontract") /\ addr.set
   /\ Log([op |-> "iscontract", contract |-> addr.contract])
   /\ Adv /\ UNCHANGED <<fam, str, byt, addr>>
+\* Set / AddressToPtr / ToAddress / NewAddressFromString(String()): every way of copying or converting an address
+\* (also from another implementation of module.Address) gives an equal address; nil stays nil
+CopyCall ==
+  /\ At("copy") /\ (NeedsAddr("copy") => addr.set)
+  /\ Log([op |-> "copy", nil |-> ~addr.set, contract |-> addr.contract, same |-> TRUE])
+  /\ Adv /\ UNCHANGED <<fam, str, byt, addr>>
 EqualCall(v) ==
   /\ At(v) /\ (v # "eq_nilnil" => addr.set)
   /\ Log([op |-> "equal", with |-> v, ok |-> EqualModel(addr, Other(addr, v))])
@@ -202,6 +209,7 @@ Next == \/ \E c \in Chars : Type(c)
         \/ FromBytesCall
         \/ NewCall
         \/ IsContractCall
+        \/ CopyCall
         \/ \E v \in {"eq_same", "eq_type", "eq_id", "eq_nil", "eq_nilnil"} : EqualCall(v)
         \/ CodecCall
 Spec == Init /\ [][Next]_vars
